@@ -467,7 +467,7 @@ def main():
     groups = {t.ident: t for t in tops if isinstance(t, Group)}
     out = []
     out.append(f"// @generated by tools/gen_cmdsets.py {seed} - do not edit")
-    out.append("#![allow(clippy::all)]")
+    out.append("#![allow(clippy::all, non_snake_case)]")
     out.append("use embedded_cli::command::RawCommand;")
     out.append("use embedded_cli::service::{FromRaw, ParseError};")
     out.append("use embedded_cli::{Command, CommandGroup};")
